@@ -272,9 +272,9 @@ func (p *Program) verifyFunction(fc *FuncContract, fn *ssa.Function) *VC {
 		}
 	}
 	for _, g := range fc.Ghosts {
-		if t := x.ghostType(fr, g); t != nil {
-			x.set(st, x.ghostVar(fr, g), x.ss.zero(t).S)
-			x.set(fr.entry, x.ghostVar(fr, g), x.ss.zero(t).S)
+		if _, zero, ok := x.ghostSortZero(fr, g); ok {
+			x.set(st, x.ghostVar(fr, g), zero)
+			x.set(fr.entry, x.ghostVar(fr, g), zero)
 		}
 	}
 	for _, r := range fc.Requires {
@@ -437,8 +437,16 @@ func (x *Exec) applyContractInvoke(c *callCtx, fc *FuncContract, sig *types.Sign
 		if i+1 < len(c.args) {
 			a := c.args[i+1]
 			a.T = sig.Params().At(i).Type()
-			pm[sig.Params().At(i).Name()] = a
+			if n := sig.Params().At(i).Name(); n != "" && n != "_" {
+				pm[n] = a
+			}
+			pm[fmt.Sprintf("arg%d", i)] = a
 		}
+	}
+	if len(c.args) > 0 {
+		self := c.args[0]
+		self.T = c.common.Value.Type()
+		pm["self"] = self
 	}
 	var pkg *types.Package
 	if sp := x.prog.byName[fc.Pkg]; sp != nil {
@@ -456,6 +464,14 @@ func (x *Exec) applyContractWith(c *callCtx, fc *FuncContract, sig *types.Signat
 	pre := c.st.clone()
 	for _, g := range fc.Ghosts {
 		// the callee's ghost state is not visible to the caller: an arbitrary value per call
+		if g.Type.Kind == "set" {
+			if et, err := x.prog.resolveType(g.Type.Elem, pkg); err == nil {
+				if _, clash := pm[g.Name]; !clash {
+					pm[g.Name] = x.freshSort("ghost_"+g.Name, "(Array "+x.ss.sortOf(et)+" Bool)")
+				}
+			}
+			continue
+		}
 		if t, err := x.prog.resolveType(g.Type, pkg); err == nil {
 			if _, clash := pm[g.Name]; !clash {
 				pm[g.Name] = x.fresh("ghost_"+g.Name, t)
@@ -613,7 +629,28 @@ func insideSourceLoop(fn *ssa.Function, pos token.Pos) bool {
 	return found
 }
 
+// ghostSortZero: SMT sort and initial value of a ghost variable (Go types, or set[T] as a characteristic array).
+func (x *Exec) ghostSortZero(fr *Frame, g GhostVar) (string, string, bool) {
+	if g.Type.Kind == "set" {
+		et, err := x.prog.resolveType(g.Type.Elem, fnPkg(fr.fn))
+		if err != nil {
+			x.prog.contractErrors = append(x.prog.contractErrors, contractErr{Fn: fr.contract.Key(), Clause: "ghost " + g.Name, Err: err.Error(), Props: fr.contract.Props})
+			return "", "", false
+		}
+		s := "(Array " + x.ss.sortOf(et) + " Bool)"
+		return s, "((as const " + s + ") false)", true
+	}
+	t := x.ghostType(fr, g)
+	if t == nil {
+		return "", "", false
+	}
+	return x.ss.sortOf(t), x.ss.zero(t).S, true
+}
+
 func (x *Exec) ghostType(fr *Frame, g GhostVar) types.Type {
+	if g.Type.Kind == "set" {
+		return nil
+	}
 	t, err := x.prog.resolveType(g.Type, fnPkg(fr.fn))
 	if err != nil {
 		x.prog.contractErrors = append(x.prog.contractErrors, contractErr{Fn: fr.contract.Key(), Clause: "ghost " + g.Name, Err: err.Error(), Props: fr.contract.Props})
@@ -625,12 +662,14 @@ func (x *Exec) ghostType(fr *Frame, g GhostVar) types.Type {
 func (x *Exec) ghostVar(fr *Frame, g GhostVar) string {
 	name := "ghost." + g.Name
 	if _, ok := x.vc.heapSort[name]; !ok {
-		t := x.ghostType(fr, g)
-		if t == nil {
+		s, _, ok := x.ghostSortZero(fr, g)
+		if !ok {
 			x.vc.heapSort[name] = SInt
 		} else {
-			x.vc.heapSort[name] = x.ss.sortOf(t)
-			x.vc.cellType[name] = t
+			x.vc.heapSort[name] = s
+			if t := x.ghostType(fr, g); t != nil {
+				x.vc.cellType[name] = t
+			}
 		}
 	}
 	return name
@@ -705,11 +744,10 @@ func (x *Exec) afterCall(c *callCtx, targets []string) {
 			x.contractError(fr, as.Clause, err)
 			continue
 		}
-		gt := x.ghostType(fr, *gv)
-		if gt != nil {
-			v = x.coerceNil(v, x.ss.sortOf(gt))
-			if v.Sort != x.ss.sortOf(gt) {
-				x.contractError(fr, as.Clause, fmt.Errorf("ghost %s has sort %s, value has %s", gv.Name, x.ss.sortOf(gt), v.Sort))
+		if gs, _, ok := x.ghostSortZero(fr, *gv); ok {
+			v = x.coerceNil(v, gs)
+			if v.Sort != gs {
+				x.contractError(fr, as.Clause, fmt.Errorf("ghost %s has sort %s, value has %s", gv.Name, gs, v.Sort))
 				continue
 			}
 		}
